@@ -90,7 +90,7 @@ Fixpoint mismatch_from (i : N) (cs : list tcase) : list N :=
 Definition mismatch_ids := mismatch_from 0%N.
 
 Inductive texpected :=
-| ELat (spec goja : res)
+| ELat (spec goja : res) (impl_is_goja : bool)
 | EHist (first_diff : option nat)
 | EModel (rs : list res) (final : target)
 | ERev
@@ -105,9 +105,17 @@ Fixpoint first_diff (i : nat) (a b : list N) : option nat :=
 
 Definition expected (c : tcase) : texpected :=
   match c with
-  | TLat t cl _ _ => ELat (spec_check cl t) (goja_check cl t)
+  | TLat t cl o u => ELat (spec_check cl t) (goja_check cl t) (res_eqb o (goja_check cl t) && u)
   | THist d p => EHist (first_diff 0 d p)
   | TModel t0 ops _ _ => let '(rs, t') := run_ops ops t0 in EModel rs t'
   | TRev _ => ERev
   | TFail => EFail
+  end.
+
+(* does the observation agree with the implementation-shaped model I?  (used to classify a
+   disagreement with S as a recorded finding: impl <> S, impl = I, inside the finding's region) *)
+Definition impl_is_I (c : tcase) : bool :=
+  match c with
+  | TLat t cl o u => res_eqb o (goja_check cl t) && u
+  | _ => false
   end.
